@@ -417,7 +417,7 @@ func checkDedup(p *Prog, r *Report) {
 	okKey, whyKey := true, ""
 	okFwd, whyFwd := true, ""
 	seenNew, seenOld := false, false
-	for _, s := range Paths(fn).From(heads[0]) {
+	for _, s := range PathsInl(fn).From(heads[0]) {
 		if s.IsSelectPanicTail() {
 			continue
 		}
@@ -437,6 +437,26 @@ func checkDedup(p *Prog, r *Report) {
 					}
 				case *ssa.MapUpdate:
 					mu = t
+				}
+			}
+		}
+		// the seen-set only grows: nothing inside the loop replaces, re-creates or shrinks it
+		for _, e := range s.Events {
+			switch e.Kind {
+			case EvStore:
+				if _, isMap := e.Val.Type().Underlying().(*types.Map); isMap {
+					okKey, whyKey = false, "the set of seen IDs is replaced inside the loop: earlier sightings are forgotten and a host is printed again"
+				}
+			case EvCall:
+				if bi, isB := e.Call.Value.(*ssa.Builtin); isB && bi.Name() == "delete" {
+					okKey, whyKey = false, "seen IDs are deleted: a host can be printed again"
+				}
+			}
+		}
+		for _, b := range s.Blocks {
+			for _, in := range b.Instrs {
+				if _, isMM := in.(*ssa.MakeMap); isMM {
+					okKey, whyKey = false, "a new set is created inside the loop: earlier sightings are forgotten"
 				}
 			}
 		}
